@@ -243,6 +243,10 @@ class Task:
         except RustPanic as e:
             self.state = "panicked"
             self.panic = e
+        if self.detached and self.state == "done":
+            # nobody will ever take the result: the pool drops it
+            r, self.result = self.result, MOVED
+            I.drop_value(r)
 
 
 class Runtime:
@@ -309,6 +313,9 @@ class JoinHandleV:
     def rust_drop(self, I):
         # dropping a JoinHandle detaches the task; the closure still runs on the pool later
         self.task.detached = True
+        if self.task.state == "done" and not isinstance(self.task.result, _Moved):
+            r, self.task.result = self.task.result, MOVED
+            I.drop_value(r)
 
 
 @T.path("async_std::task::spawn_blocking", "tokio::task::spawn_blocking", "spawn_blocking")
